@@ -188,6 +188,17 @@ def judge(ctx, sc, pt, reports, out):
                 if skip(v["key"]):
                     continue
                 add(v["key"] + sig, f"{v['msg']} (x{v['count']})")
+            # a checkpoint had completed before a *late* write was killed:
+            # the fresh process must resume from one, not start afresh
+            resumed = any("resumed" in (r.get("classes") or [])
+                          for r in reports[1:])
+            if sc["when"] == "late" and not resumed and \
+                    last.get("status") == "completed":
+                add("completed-checkpoint-lost:restarted-afresh" + sig,
+                    f"crash {first.get('data', {}).get('fs_crash_at')} during "
+                    f"write number {sc['at']}; the resumed process started "
+                    f"from iteration 0 although earlier checkpoints had "
+                    f"completed")
             if last.get("status") == "completed" and \
                     (last.get("counters") or {}).get("ckpt.writes", 0) < 1:
                 add("resumed-run-never-checkpointed" + sig, "")
